@@ -90,15 +90,38 @@ Theorem C18_update_invalid_keeps :
     /\ get G v (global G gadd (step G gadd gopp gscale gvalid i dl new st)) = get G v (global G gadd st).
 Proof. exact update_invalid_keeps. Qed.
 
-(* per-variable damping as DynamicUpdater passes it: the full statement "delta = 1 means a full
-   update" is refuted for the code as it stands (the variable is never updated) *)
+(* per-variable damping as DynamicUpdater passes it, delta exactly 1 for a variable:
+   - the exponent handling of the code as it was written (message ** 0.0) rejects a proper projection (refuted,
+     witness: both variants evaluated on the same update);
+   - the damped formula is the full projection, and the repaired exponent handling (MeanField.rescale) accepts it;
+   - whenever the projection is accepted (whichever variant [cand] runs), the global approximation becomes the
+     fitted distribution *)
 Theorem C18_update_per_variable_delta_one_refuted :
-  exists (st : state N2) i dl new v nw,
-    i < length st /\ get N2 v new = Some nw /\ In v (keys N2 (own N2 i st))
+  exists (st : state N2) i dl v nw,
+    i < length st /\ In v (keys N2 (own N2 i st)) /\ is_pervar dl = true
     /\ delta_at dl v = Q2Qc 1
     /\ n_valid (full_cand N2 n_add n_opp nw (get N2 v (n_cavity i st))) = true
-    /\ get N2 v (n_global (step N2 n_add n_opp n_scale n_valid i dl new st)) <> Some nw.
+    /\ cand_valid N2 n_valid (cand_v N2 n_add n_opp n_scale false dl (n_cavity i st) (own N2 i st) v nw) = false
+    /\ cand_valid N2 n_valid (cand_v N2 n_add n_opp n_scale true dl (n_cavity i st) (own N2 i st) v nw) = true.
 Proof. exact per_variable_delta_one_refuted. Qed.
+Theorem C18_update_per_variable_delta_one_fixed :
+  forall (G : Type) (gadd : G -> G -> G) (gopp : G -> G) (gzero : G) (gscale : Qc -> G -> G) (gvalid : G -> bool),
+  group_laws G gadd gopp gzero -> module_laws G gadd gscale ->
+  forall (ds : list (var * Qc)) (cavd last : mf G) (v : var) (nw l : G),
+    get G v last = Some l -> qlookup v ds = Q2Qc 1 ->
+    gvalid (full_cand G gadd gopp nw (get G v cavd)) = true ->
+    cand_v G gadd gopp gscale true (DPerVar ds) cavd last v nw = (full_cand G gadd gopp nw (get G v cavd), true)
+    /\ cand_valid G gvalid (cand_v G gadd gopp gscale true (DPerVar ds) cavd last v nw) = true.
+Proof. exact pervar_delta_one_fixed. Qed.
+Theorem C18_update_exact_per_variable :
+  forall (G : Type) (gadd : G -> G -> G) (gopp : G -> G) (gzero : G) (gscale : Qc -> G -> G) (gvalid : G -> bool),
+  group_laws G gadd gopp gzero -> module_laws G gadd gscale ->
+  forall (i : nat) (dl : delta) (new : mf G) (st : state G) (v : var) (nw l g : G),
+    i < length st -> is_full dl = false -> delta_at dl v = Q2Qc 1 ->
+    get G v new = Some nw -> get G v (own G i st) = Some l -> get G v (global G gadd st) = Some g ->
+    cand_valid G gvalid (cand G gadd gopp gscale dl (cavity G gadd i st) (own G i st) v nw) = true ->
+    get G v (global G gadd (step G gadd gopp gscale gvalid i dl new st)) = Some nw.
+Proof. exact update_exact_per_variable. Qed.
 
 (* every sequence of updates of every kind: untouched factors keep their message, and the
    identities hold in the state reached *)
